@@ -145,6 +145,105 @@ func c08Honest(r *mc.Run, w *enga.World, path []enga.ABlock) {
 	}
 }
 
+// c08Sizes: execution blocks of the sizes a well-behaved engine can build within its gas limit
+// (data-heavy transactions of up to 128 KiB each), up to what a consensus block of the chain's own
+// configuration (Block.MaxBytes = 6,348,800 in `goatd modgen init` and the shipped genesis files)
+// can carry. The honest proposal is accepted by a second replica and its execution-block message
+// succeeds when finalised, also in the block after a large one (the previous head is read back).
+var c08Sizes = []struct {
+	name string
+	n    int // 128-KiB transactions
+}{{"512KiB", 4}, {"1MiB", 8}, {"2.5MiB", 20}, {"3MiB", 24}, {"4MiB", 32}, {"6MB-consensus-block-limit", 47}}
+
+func c08LargeBlocks(r *mc.Run, w *enga.World, path []enga.ABlock) {
+	for _, sz := range c08Sizes {
+		a, err := w.Fork()
+		must(err)
+		b, err := w.Fork()
+		must(err)
+		viol := func(cls, msg string) {
+			r.Violate(mc.Violation{Class: cls + ":" + sz.name, Msg: fmt.Sprintf("%s | execution block with %d data-heavy transactions of 128 KiB | history %v", msg, sz.n, aPath(path)), Detail: engaDetail{Path: path, Note: "execution block size " + sz.name}}, nil)
+		}
+		var user [][]byte
+		for i := 0; i < sz.n; i++ {
+			t := make([]byte, 128<<10)
+			t[0], t[1] = 0x02, byte(i)
+			user = append(user, t)
+		}
+		for round := 0; round < 2; round++ {
+			a.N.EL.UserTxs, b.N.EL.UserTxs = user, user
+			blk := &sim.Block{TimeDelta: time.Second}
+			pp, err := a.N.Prepare(blk)
+			r.Transitions.Add(1)
+			r.Validated.Add(1)
+			if err != nil {
+				viol("prepare-fails", err.Error())
+				break
+			}
+			pr, err := b.N.Process(blk, pp.Txs)
+			if err != nil || pr.Status != abci.ResponseProcessProposal_ACCEPT {
+				viol("honest-proposal-rejected", fmt.Sprintf("second replica: status %v err %v | %s", pr, err, b.N.LoggedErrors()))
+				break
+			}
+			fr, err := b.N.Finalize(blk, pp.Txs)
+			if err != nil {
+				viol("honest-proposal-fails-finalize", err.Error())
+				break
+			}
+			if fr.TxResults[0].Code != 0 {
+				viol("honest-execution-block-message-fails", fmt.Sprintf("round %d: gas used %d of %d: %s", round, fr.TxResults[0].GasUsed, fr.TxResults[0].GasWanted, fr.TxResults[0].Log))
+				break
+			}
+			must(b.N.Commit(blk, pp.Txs, fr))
+			// the proposer's replica follows
+			if _, err := a.N.Process(blk, pp.Txs); err != nil {
+				viol("proposer-cannot-follow", err.Error())
+				break
+			}
+			fa, err := a.N.Finalize(blk, pp.Txs)
+			must(err)
+			must(a.N.Commit(blk, pp.Txs, fa))
+			r.Outcome(fmt.Sprintf("large-block-applied:%s:gas-%dM", sz.name, fr.TxResults[0].GasUsed/1e6))
+		}
+		a.Close()
+		b.Close()
+	}
+}
+
+// c08ManyRequests: execution blocks with as many requests of one kind as the engine's gas limit
+// lets one block hold (about a thousand contract calls). The honest block is applied and so are
+// the blocks after it (queues filled by one block are read and rewritten by the following ones).
+var c08Bursts = []enga.Event{{Kind: "req:unlock", N: 400}, {Kind: "req:unlock", N: 1000}, {Kind: "req:claim", N: 1000}, {Kind: "req:withdraw", N: 1000}}
+
+func c08ManyRequests(r *mc.Run, w *enga.World, path []enga.ABlock) {
+	for _, ev := range c08Bursts {
+		x, err := w.Fork()
+		must(err)
+		for i, b := range []enga.ABlock{{Events: []enga.Event{ev}}, {}, {Dt: 7}} {
+			rr := x.Run(b)
+			r.Transitions.Add(1)
+			r.Validated.Add(1)
+			cls := ""
+			msg := ""
+			switch {
+			case rr.Err != nil && rr.Err.Error() == sim.ErrEmptySet.Error():
+			case rr.Err != nil:
+				cls, msg = "honest-block-fails:"+rr.Stage, rr.Err.Error()
+			case !rr.EthOK:
+				cls, msg = "honest-execution-block-message-fails", fmt.Sprintf("gas used %d of %d: %s", rr.Finalize.TxResults[0].GasUsed, rr.Finalize.TxResults[0].GasWanted, rr.Finalize.TxResults[0].Log)
+			}
+			if cls != "" {
+				r.Violate(mc.Violation{Class: fmt.Sprintf("%s:%d-%s-requests", cls, ev.N, ev.Kind[4:]), Msg: fmt.Sprintf("%s | block %d after an execution block with %d %s requests | history %v", msg, i, ev.N, ev.Kind[4:], aPath(path)), Detail: engaDetail{Path: path, Note: fmt.Sprintf("%d %s requests in one execution block", ev.N, ev.Kind)}}, nil)
+				break
+			}
+			if i == 0 {
+				r.Outcome(fmt.Sprintf("request-burst-applied:%d-%s", ev.N, ev.Kind[4:]))
+			}
+		}
+		x.Close()
+	}
+}
+
 type propMut struct {
 	name  string
 	build func(w *enga.World) ([][]byte, bool) // returns the proposal; false if not applicable in this state
@@ -440,6 +539,8 @@ func runC08(r *mc.Run) {
 			{Absent: []int{1}},
 		}
 		c08Honest(r, root, nil)
+		c08LargeBlocks(r, root, nil)
+		c08ManyRequests(r, root, nil)
 		c08Converse(r, root, nil)
 		t := &enga.Tree{Run: r, Depth: depth,
 			Menu: func(w *enga.World, path []enga.ABlock) []enga.ABlock { return menu },
@@ -457,6 +558,10 @@ func runC08(r *mc.Run) {
 				c08Honest(r, child, path)
 				if len(path) <= 1 || r.Thorough() {
 					c08Converse(r, child, path)
+				}
+				if len(path) <= 1 {
+					c08LargeBlocks(r, child, path)
+					c08ManyRequests(r, child, path)
 				}
 				return true
 			},
